@@ -150,7 +150,7 @@ def nondominated_sort(
         remaining = remaining[~pareto_mask]
 
     # Restrict the number of items returned and optionally flatten
-    if max_items is not None:
+    if max_items is not None and len(indices) > 0:
         limit = max_items - sum(len(x) for x in indices[:-1])
         indices[-1] = indices[-1][:limit]
         if not indices[-1]:
